@@ -73,6 +73,8 @@ def phi_inv(p):
 def case_key(c, method):
     if method == "reject":
         return f"constructor conditional_on={c['cond']}"
+    if c.get("how") == "refit":
+        return f"{method} named=seastate-weibull-lognormal alpha={c['alpha']} n_points={c['n_points']} seed={c['seed']}"
     return (f"{method} n_dim={c['n_dim']} cond={c['cond']} families={','.join(c['families'])} "
             f"shapes={c['sh']} alpha={c['alpha']} n_points={c['n_points']} seed={c['seed']}")
 
@@ -232,19 +234,70 @@ def reject_record(c):
     return dict(kind="reject", accepted=accepted, exc=exc, cond=[-1 if k is None else k for k in c["cond"]])
 
 
+def _contours(vc, model, c, desc, tag=""):
+    out = []
+    for method in c.get("methods", ("iform", "isorm")):
+        rec, cont = contour_record(vc, model, c, method)
+        out.append((rec, method + tag, {"nontrivial": M.nontrivial_dependence(desc) if desc else True,
+                                        "colsens": bool(desc) and M.column_sensitive(desc)}, cont))
+    return out
+
+
+def history_case(vc, c):
+    """contour -> change the SAME model object in place (assign parameters | re-fit) -> the same
+    contour request again; the second contour is judged against the CURRENT model"""
+    if c["how"] == "refit":
+        truth = M.seastate_model(vc)
+        data_a = truth.draw_sample(5000, random_state=c["seed"])
+        data_b = truth.draw_sample(5000, random_state=c["seed"] + 1) * np.array([0.5, 1.6])
+        model = M.seastate_model(vc)
+        with warnings.catch_warnings():
+            warnings.simplefilter("ignore")
+            model.fit(data_a)
+        desc = None
+    else:
+        desc = M.describe(np.random.default_rng(c["seed"]), c["n_dim"], c["cond"], c["families"], c["sh"])
+        model = M.from_description(vc, desc)
+    first = _contours(vc, model, c, desc, "-history-first")
+    with warnings.catch_warnings():
+        warnings.simplefilter("ignore")
+        if c["how"] == "refit":
+            model.fit(data_b)
+        else:
+            M.change_parameters(model)
+    second = _contours(vc, model, c, desc, "-history-after-" + c["how"])
+    out = []
+    for (r1, m1, i1, c1), (r2, m2, i2, c2) in zip(first, second):
+        out.append((r1, m1, i1))
+        # non-trivial: the contour of the old parameters is off the beta-sphere of the new ones
+        moved = False
+        if c1 is not None and r1["finite"]:
+            with warnings.catch_warnings():
+                warnings.simplefilter("ignore")
+                u = map_back(model, c["cond"], np.asarray(c1.coordinates, dtype=float))
+            rr = np.sqrt(np.sum(u * u, axis=1))
+            moved = bool(np.max(np.abs(rr - r1["betaref"] / 1e7)) > 1e-3)
+        out.append((r2, m2, dict(i2, nontrivial=moved, history=True)))
+    return out
+
+
 def run_case(c):
     """-> list of (record without id, method, info) for one case (module level: used with pmap)"""
     vc = import_virocon()
     if c.get("kind") == "reject":
         return [(reject_record(c), "reject", {"nontrivial": True})]
-    desc = M.describe(np.random.default_rng(c["seed"]), c["n_dim"], c["cond"], c["families"], c["sh"])
+    if c.get("kind") == "history":
+        return history_case(vc, c)
+    desc = M.describe(np.random.default_rng(c["seed"]), c["n_dim"], c["cond"], c["families"], c["sh"],
+                      spec=M.SPECS.get(c.get("spec")))
     model = M.from_description(vc, desc)
     out = []
-    for method in ("iform", "isorm"):
-        rec, cont = contour_record(vc, model, c, method)
-        out.append((rec, method, {"nontrivial": M.nontrivial_dependence(desc), "colsens": M.column_sensitive(desc)}))
+    for rec, method, info, cont in _contours(vc, model, c, desc):
+        if c.get("spec"):
+            method = method + "-" + c["spec"]
+        out.append((rec, method, info))
         if cont is not None and rec["finite"]:
-            pr, ident = probe_record(model, c, cont, method)
+            pr, ident = probe_record(model, c, cont, method.split("-")[0])
             if pr is not None:
                 out.append((pr, method + "-probe", {"nontrivial": ident > 0, "identifying": ident}))
     return out
@@ -314,6 +367,29 @@ def make_cases(ctx, cfgs):
                     # the same structure with the scale parameter (normal / log-normal sigma) varying
                     fams3 = [["normal", "lognormal"][(j + i) % 2] for i in range(n)]
                     add(dict(cfg, sh=[3] * n), [1e-2, 0.1, 1e-4][rep], [30, 7, 60][rep], fams3)
+    # exponentiated Weibull with delta in [0.3, 0.8] (marginal and conditional) at the smallest alphas
+    ew2 = [cfg for cfg in by_n[2] if cfg["cond"][1] == 0 and cfg["sh"][1] in (3, 4)] + \
+          [cfg for cfg in by_n[2] if cfg["cond"][1] is None][:2]
+    ew3 = [cfg for cfg in by_n[3] if cfg["cond"][1] == 0 and cfg["cond"][2] == 1 and cfg["sh"][1] == 4 and cfg["sh"][2] in (3, 4)]
+    for rep in range(ctx.pick(2, 8)):
+        for idx, cfg in enumerate(ew2 + ew3[:ctx.pick(2, 8)]):
+            j += 1
+            n = cfg["n_dim"]
+            fams = ["expweibull"] * n if (idx + rep) % 2 == 0 else \
+                   [["expweibull", "weibull", "lognormal"][(i + idx + rep) % 3] for i in range(n)]
+            add(cfg, [1e-8, 1e-6][j % 2], (NPTS2 if n == 2 else NPTSN)[1 + j % 3], fams)
+            cases[-1]["spec"] = "ewlow"
+    # histories: contour -> change the same model object in place -> the same request again
+    hist_cfgs = [cfg for cfg in by_n[2] if cfg["cond"][1] == 0 and cfg["sh"][1] != 1] + \
+                [cfg for cfg in by_n[3] if cfg["cond"][1] == 0 and cfg["cond"][2] == 1 and 1 not in cfg["sh"][1:]]
+    for k in range(ctx.pick(6, 40)):
+        cfg = hist_cfgs[(k * 5 + ctx.seed) % len(hist_cfgs)]
+        j += 1
+        add(cfg, [1e-2, 0.1, 1e-4][k % 3], [30, 7, 60][k % 3])
+        cases[-1].update(kind="history", how="parameter-change")
+    for k in range(ctx.pick(1, 4)):
+        cases.append(dict(kind="history", how="refit", n_dim=2, cond=[None, 0], sh=[0, 4], families=["weibull", "lognormal"],
+                          alpha=[1e-2, 1e-4, 0.1, 1e-6][k], n_points=[30, 7, 180, 30][k], seed=ctx.seed + 31 + k))
     return cases
 
 
@@ -379,7 +455,9 @@ def run(ctx):
                 "thorough; 4-D: 3 / 96 shape assignments for each of the 24 structures); each is concretised with "
                 "shipped families (rotating over the 7) and seeded admissible parameters, alpha from "
                 "{0.5,0.1,1e-2,1e-4,1e-6,1e-8} (thorough also log-uniform), n_points from {3,7,30,180|60}; both "
-                "IFORM and ISORM. distinct = distinct (method, structure, families, shapes, alpha, n_points, seed); "
+                "IFORM and ISORM; exponentiated Weibull with delta in [0.3,0.8] (marginal and conditional) at alpha "
+                "1e-6/1e-8; histories on one model object: contour, change in place (assign parameters | re-fit to "
+                "other data), the same (class, alpha, n_points) request again, judged against the current model. distinct = distinct (method, structure, families, shapes, alpha, n_points, seed); "
                 "non-trivial = at least one conditional dimension whose parameters vary with the given (probe "
                 "records: at least one point where another column would give a different shift)")
     ctx.trusted = ["TLC evaluating spec/Trace_C01.tla", "statistics.NormalDist (Phi, Phi^-1)",
@@ -402,6 +480,12 @@ def run(ctx):
                           families=[M.FAMILIES[(k + i) % 7] for i in range(cfg["n_dim"])], alpha=0.1, n_points=3,
                           seed=ctx.seed + 77 + k))
     recs, meta, nident, failing = judge(ctx, cases, "contours", workers=ctx.pick(6, 12))
+    nhist = sum(1 for (_, _, info) in meta if info.get("history") and info.get("nontrivial"))
+    newlow = sum(1 for (c, m, _) in meta if c.get("spec") == "ewlow")
+    ctx.notes["history_contours_after_a_change_that_moved_the_contour"] = nhist
+    ctx.notes["contours_expweibull_low_delta"] = newlow
+    if not ctx.violations and (nhist < 4 or newlow < 8):
+        raise Machinery(f"vacuous: {nhist} history contours / {newlow} low-delta exponentiated Weibull contours")
     colsens = sum(1 for (_, _, info) in meta if info.get("colsens"))
     ctx.notes["contours_sensitive_to_the_conditioning_column"] = colsens
     if not ctx.violations and (nident == 0 or colsens < 20):
